@@ -4,6 +4,7 @@
    the in-memory registries ADSORBATE_LIST / MATERIAL_LIST as part of the state, with_connection = one transaction.
    Strings and numbers are interned to integers by the harness.  No reals; axiom free. *)
 From Coq Require Import ZArith List Bool Lia.
+From PG Require Export Db.DbShapeTypes Gen.DbShapeGen.
 Import ListNotations.
 Open Scope Z_scope.
 
@@ -63,7 +64,10 @@ Fixpoint find_name (i : Z) (l : list (Z * Z)) : option Z :=
   match l with [] => None | (j, n) :: r => if j =? i then Some n else find_name i r end.
 
 (* ------------------------------------------------------------------ errors, statements *)
-Inductive err := EIntegrity | EInterface | EOperational | ECrash.
+(* what a statement (or the code between two statements) may raise: the three sqlite3 classes the suite knows, process death, any other
+   subclass of Exception (sqlite3.ProgrammingError, KeyError, TypeError, ValueError, AttributeError ...; k names the class) and
+   exceptions that derive from BaseException only (KeyboardInterrupt, SystemExit, GeneratorExit; k names the class) *)
+Inductive err := EIntegrity | EInterface | EOperational | ECrash | EExc (k : Z) | EBase (k : Z).
 Inductive R (A : Type) := Good (a : A) | Bad (e : err).
 Arguments Good {A}. Arguments Bad {A}.
 Definition stmt (B : Type) := db -> R (B * db).
@@ -267,18 +271,23 @@ Definition check_bool (v : val) : val :=
   match v with VText t => if t =? A_TRUE then VBool true else if t =? A_FALSE then VBool false else v | _ => v end.
 Fixpoint chunks (fuel : nat) (n : nat) {X} (l : list X) : list (list X) :=
   match fuel with O => [] | S f => match l with [] => [] | _ => firstn n l :: chunks f n (skipn n l) end end.
-Definition iso_get (c : crit) : prog (list isoout) :=
-  bindP (ex (sel_isos c)) (fun rs =>
-    (fix go (cs : list (list irow)) : prog (list isoout) :=
-       match cs with
-       | [] => Ret []
-       | ch :: r =>
-           bindP (ex (sel_iprops_in (map i_id ch))) (fun ps => bindP (ex (sel_idata_in (map i_id ch))) (fun ds =>
-           bindP (go r) (fun acc => Ret (map (fun i =>
-              mkOut (i_id i) (i_ty i) (i_mat i) (i_ads i) (i_temp i)
-                    ((A_iso_type, VText (i_ty i)) :: map (fun p => (p_ty p, check_bool (p_val p))) (filter (fun p => p_own p =? i_id i) ps))
-                    (map (fun r => (d_ty r, d_dty r, d_data r)) (filter (fun r => d_iso r =? i_id i) ds))) ch ++ acc)))) end)
-    (chunks (S (length rs)) 100 rs)).
+(* the isotherm built from one row of `isotherms`, the property rows ps and the data rows ds fetched for its batch *)
+Definition mk_out (ps : list prow) (ds : list drow) (i : irow) : isoout :=
+  mkOut (i_id i) (i_ty i) (i_mat i) (i_ads i) (i_temp i)
+        ((A_iso_type, VText (i_ty i)) :: map (fun p => (p_ty p, check_bool (p_val p))) (filter (fun p => p_own p =? i_id i) ps))
+        (map (fun r => (d_ty r, d_dty r, d_data r)) (filter (fun r => d_iso r =? i_id i) ds)).
+(* the batch loop: per batch one SELECT on isotherm_properties and one on isotherm_data, `WHERE iso_id IN (ids of the batch)` *)
+Fixpoint iso_get_chunks (cs : list (list irow)) : prog (list isoout) :=
+  match cs with
+  | [] => Ret []
+  | ch :: r =>
+      bindP (ex (sel_iprops_in (map i_id ch))) (fun ps => bindP (ex (sel_idata_in (map i_id ch))) (fun ds =>
+      bindP (iso_get_chunks r) (fun acc => Ret (map (mk_out ps ds) ch ++ acc)))) end.
+(* isotherms_from_db: one SELECT on `isotherms` (fetchall), then the batch loop over grouped(alldata, n) *)
+Definition iso_get_n (n : nat) (c : crit) : prog (list isoout) :=
+  bindP (ex (sel_isos c)) (fun rs => iso_get_chunks (chunks (S (length rs)) n rs)).
+(* the batch size is the one found in the source (Gen/DbShapeGen.v, `grouped(alldata, 100)`) *)
+Definition iso_get (c : crit) : prog (list isoout) := iso_get_n iso_batch c.
 
 (* ------------------------------------------------------------------ operations and with_connection *)
 Inductive op :=
@@ -306,8 +315,9 @@ Definition body (o : op) : prog ret :=
 
 (* outcome classes seen by the caller *)
 Inductive outcome := OOk (r : ret) | OParsing | OOther (e : err) | ODied.
-(* process death: at statement k (fault ECrash), or around commit *)
-Inductive cfault := CNone | CBeforeCommit | CAfterCommit.
+(* process death: at statement k (fault ECrash), or around commit; CCommitRaises e: conn.commit() itself raises e (the storage layer
+   reports an error at COMMIT) and nothing is committed *)
+Inductive cfault := CNone | CBeforeCommit | CAfterCommit | CCommitRaises (e : err).
 (* with_connection: PRAGMA foreign_keys=ON; body; commit in the else-branch; rollback + ParsingError on Integrity/InterfaceError;
    any other exception: close without commit (= rollback) and propagate.  Returns the caller-visible outcome, the database file
    afterwards, the registry afterwards (lost when the process died) and the number of statements executed. *)
@@ -317,7 +327,9 @@ Definition with_conn (flt : fault) (cf : cfault) (p : prog ret) (d : db) (r : re
   | Good a => match cf with
               | CNone => (OOk a, s_db s, s_reg s, s_n s)
               | CBeforeCommit => (ODied, d, s_reg s, s_n s)
-              | CAfterCommit => (ODied, s_db s, s_reg s, s_n s) end
+              | CAfterCommit => (ODied, s_db s, s_reg s, s_n s)
+              | CCommitRaises ECrash => (ODied, d, s_reg s, s_n s)
+              | CCommitRaises e => (OOther e, d, s_reg s, s_n s) end
   | Bad EIntegrity | Bad EInterface => (OParsing, d, s_reg s, s_n s)
   | Bad ECrash => (ODied, d, s_reg s, s_n s)
   | Bad e => (OOther e, d, s_reg s, s_n s) end.
